@@ -96,19 +96,16 @@ class PolytopeTensor(PointLikeTensor, ABC):
             facets2 = other.facets
             return all(f in facets2 for f in facets1) and all(f in facets1 for f in facets2)
 
-        # vertices equal up to circular reordering
+        # vertices equal up to circular reordering (for collections: every polytope with its own reordering)
         reversed_array = np.flip(other.array, axis=-2)
+        matched = np.zeros(self.shape[:-2], dtype=bool)
         for i in range(self.shape[-2]):
-            if np.all(
-                is_multiple(self.array, np.roll(other.array, i, axis=-2), axis=-1, rtol=EQ_TOL_REL, atol=EQ_TOL_ABS)
-            ):
-                return True
-            if np.all(
-                is_multiple(self.array, np.roll(reversed_array, i, axis=-2), axis=-1, rtol=EQ_TOL_REL, atol=EQ_TOL_ABS)
-            ):
-                return True
+            for arr in (other.array, reversed_array):
+                matched |= np.all(
+                    is_multiple(self.array, np.roll(arr, i, axis=-2), axis=-1, rtol=EQ_TOL_REL, atol=EQ_TOL_ABS), axis=-1
+                )
 
-        return False
+        return bool(np.all(matched))
 
     def __add__(self, other: Tensor | npt.ArrayLike) -> Tensor:
         if not isinstance(other, PointTensor):
